@@ -4,8 +4,10 @@ import PsaDhcp.Model.Wire
 import PsaDhcp.Model.Dhcp
 import PsaDhcp.Model.Clients
 import PsaDhcp.Model.Ipdb
+import PsaDhcp.Model.Server
 import PsaDhcp.Spec.Inet
 import PsaDhcp.Spec.Rfc2131
 import PsaDhcp.Spec.Table
+import PsaDhcp.Props.C11
 import PsaDhcp.Props.C12
 import PsaDhcp.Props.C13
